@@ -1,3 +1,146 @@
+// instrument rewrites a scratch copy of the repository for World S:
+//
+//  1. a call simyield.Y("<file>:<line>") is spliced in front of every statement of every
+//     block, case clause and select clause of the request-path and job packages (server,
+//     server/wrapped_http, logging, prover minus circuit definitions);
+//  2. X.ListenAndServe() in package server becomes simyield.ListenAndServe(X).
+//
+// Edits are text splices on the same line of the original bytes (comments, build constraints
+// and line numbers stay as they are). Exit status 0 on success, 1 when the listener seam is
+// not found or a file does not parse.
 package main
 
-func main() {}
+import (
+	"fmt"
+	"go/ast"
+	"go/parser"
+	"go/token"
+	"os"
+	"path/filepath"
+	"sort"
+	"strings"
+)
+
+const importPath = "worldcoin/gnark-mbu/simyield"
+
+type splice struct {
+	off  int
+	text string
+	del  int // bytes to delete at off (for the ListenAndServe rewrite)
+}
+
+var skipFuncs = map[string]bool{"Define": true, "DefineGadget": true}
+
+func main() {
+	if len(os.Args) != 2 {
+		fmt.Fprintln(os.Stderr, "usage: instrument <repo-copy>")
+		os.Exit(1)
+	}
+	root := os.Args[1]
+	dirs := []string{"server", "server/wrapped_http", "logging", "prover"}
+	yields, listens := 0, 0
+	for _, d := range dirs {
+		ents, err := os.ReadDir(filepath.Join(root, d))
+		if err != nil {
+			fmt.Fprintf(os.Stderr, "instrument: %v\n", err)
+			os.Exit(1)
+		}
+		for _, e := range ents {
+			if e.IsDir() || !strings.HasSuffix(e.Name(), ".go") || strings.HasSuffix(e.Name(), "_test.go") {
+				continue
+			}
+			path := filepath.Join(root, d, e.Name())
+			y, l, err := rewrite(path, filepath.ToSlash(filepath.Join(d, e.Name())), d == "server")
+			if err != nil {
+				fmt.Fprintf(os.Stderr, "instrument: %s: %v\n", path, err)
+				os.Exit(1)
+			}
+			yields += y
+			listens += l
+		}
+	}
+	fmt.Printf("instrument: %d yield sites, %d ListenAndServe seams\n", yields, listens)
+	if listens == 0 {
+		fmt.Fprintln(os.Stderr, "instrument: no X.ListenAndServe() call found in package server (listener seam not found)")
+		os.Exit(1)
+	}
+}
+
+func rewrite(path, rel string, lookForListen bool) (int, int, error) {
+	src, err := os.ReadFile(path)
+	if err != nil {
+		return 0, 0, err
+	}
+	fset := token.NewFileSet()
+	f, err := parser.ParseFile(fset, path, src, parser.ParseComments)
+	if err != nil {
+		return 0, 0, err
+	}
+	var sp []splice
+	yields, listens := 0, 0
+	addStmts := func(list []ast.Stmt) {
+		for _, s := range list {
+			switch s.(type) {
+			case *ast.CaseClause, *ast.CommClause:
+				continue // the body of a switch/select is a block of clauses, not of statements
+			}
+			pos := fset.Position(s.Pos())
+			sp = append(sp, splice{off: pos.Offset, text: fmt.Sprintf("simyield.Y(%q); ", fmt.Sprintf("%s:%d", rel, pos.Line))})
+			yields++
+		}
+	}
+	var walk func(n ast.Node) bool
+	walk = func(n ast.Node) bool {
+		switch x := n.(type) {
+		case *ast.FuncDecl:
+			if skipFuncs[x.Name.Name] {
+				return false
+			}
+		case *ast.BlockStmt:
+			addStmts(x.List)
+		case *ast.CaseClause:
+			addStmts(x.Body)
+		case *ast.CommClause:
+			addStmts(x.Body)
+		case *ast.CallExpr:
+			if lookForListen {
+				if sel, ok := x.Fun.(*ast.SelectorExpr); ok && sel.Sel.Name == "ListenAndServe" && len(x.Args) == 0 {
+					// X.ListenAndServe()  ->  simyield.ListenAndServe(X)
+					xs, xe := fset.Position(sel.X.Pos()).Offset, fset.Position(sel.X.End()).Offset
+					end := fset.Position(x.End()).Offset
+					recv := string(src[xs:xe])
+					sp = append(sp, splice{off: xs, del: end - xs, text: "simyield.ListenAndServe(" + recv + ")"})
+					listens++
+				}
+			}
+		}
+		return true
+	}
+	ast.Inspect(f, walk)
+	if len(sp) == 0 {
+		return 0, 0, nil
+	}
+	// import on the package clause line
+	pkgEnd := fset.Position(f.Name.End()).Offset
+	sp = append(sp, splice{off: pkgEnd, text: "; import simyield \"" + importPath + "\""})
+	sort.SliceStable(sp, func(i, j int) bool { return sp[i].off < sp[j].off })
+	var out []byte
+	last := 0
+	for _, s := range sp {
+		if s.off < last {
+			return 0, 0, fmt.Errorf("overlapping edits at offset %d", s.off)
+		}
+		out = append(out, src[last:s.off]...)
+		out = append(out, s.text...)
+		last = s.off + s.del
+	}
+	out = append(out, src[last:]...)
+	if err := os.WriteFile(path, out, 0o644); err != nil {
+		return 0, 0, err
+	}
+	// the result must parse
+	if _, err := parser.ParseFile(token.NewFileSet(), path, out, 0); err != nil {
+		return 0, 0, fmt.Errorf("instrumented file does not parse: %w", err)
+	}
+	return yields, listens, nil
+}
